@@ -574,6 +574,8 @@ func (p *smtPrinter) str(t *Term) string {
 		return "false"
 	case "sconst":
 		return smtString(t.Name)
+	case "reglan":
+		return t.Name
 	case "var":
 		p.vars[t.Name] = t.Sort
 		return smtName(t.Name)
